@@ -1,0 +1,61 @@
+package common
+
+import (
+	"fmt"
+
+	"github.com/protolambda/ztyp/codec"
+)
+
+// ReadVariableSizeElemList reads an SSZ list of variable-size elements (an offset table followed by
+// the elements) of at most limit elements from the remaining scope of dr. add is called once per
+// element and returns where to decode it.
+//
+// Unlike codec.DecodingReader.List, which skips an element whose offsets leave it zero bytes, every
+// element is decoded from exactly its own bytes: an element type that has no empty encoding
+// (a container) refuses them, so that a list cut off where its last element starts is not accepted.
+func ReadVariableSizeElemList(dr *codec.DecodingReader, add func() codec.Deserializable, limit uint64) error {
+	scope := dr.Scope()
+	// no items to decode
+	if scope == 0 {
+		return nil
+	}
+	firstOffset, err := dr.ReadOffset()
+	if err != nil {
+		return err
+	}
+	if firstOffset == 0 || firstOffset%4 != 0 {
+		return fmt.Errorf("first offset of list is invalid, not a non-zero multiple of 4: %d", firstOffset)
+	}
+	length := uint64(firstOffset / 4)
+	if length > limit {
+		return fmt.Errorf("too many items in list: %d > %d", length, limit)
+	}
+	if uint64(firstOffset) > scope {
+		return fmt.Errorf("first offset of list %d is beyond the scope %d", firstOffset, scope)
+	}
+	offsets := make([]uint64, 0, length+1)
+	offsets = append(offsets, uint64(firstOffset))
+	for i := uint64(1); i < length; i++ {
+		off, err := dr.ReadOffset()
+		if err != nil {
+			return err
+		}
+		offsets = append(offsets, uint64(off))
+	}
+	offsets = append(offsets, scope)
+	for i := uint64(0); i < length; i++ {
+		off, next := offsets[i], offsets[i+1]
+		if next < off {
+			return fmt.Errorf("offset %d of item %d is lower than the previous offset %d", next, i+1, off)
+		}
+		item := add()
+		sub, err := dr.SubScope(next - off)
+		if err != nil {
+			return err
+		}
+		if err := item.Deserialize(sub); err != nil {
+			return fmt.Errorf("failed to deserialize item %d: %v", i, err)
+		}
+	}
+	return nil
+}
